@@ -43,7 +43,7 @@ func init() {
 					"mstr.Trunc: every string of <= 5 runes over 1-, 2-, 3- and 4-byte runes x every n in 0..len+2 (prefix, len <= n, identity when n >= len, valid UTF-8, len >= n-4 when cut), random invalid byte strings for the unconditional clauses. " +
 					"mstr.CompareNatural: all 259 strings of length <= 3 over {0,1,9,/,:,a}: result in {-1,0,1}, antisymmetry on all pairs, transitivity on all 17.4 M triples (counted: those whose premises a<=b<=c hold), zero iff equal after stripping leading zeros of digit runs; every byte value and every rune U+0080..U+FFFF (stride beyond) placed after, before and between digit runs; numeric order of embedded digit runs of up to 18 digits, including pairs of runs that differ only in their low-order digits at every magnitude (around powers of ten and of two) with following text that would decide the other way. " +
 					"distinct = enumerated inputs; non-trivial = mbits length >= 8 (word loop engaged) / Trunc cuts inside a multi-byte rune / CompareNatural pair with a digit run on both sides",
-				Required:     []string{"mbits_cases", "mbits_unaligned_word_cases", "mbits_exact_end_cases", "mbits_cancelling_word_cases", "trunc_cases", "trunc_cuts_inside_rune", "natural_pairs", "natural_triples", "natural_numeric_pairs", "natural_prefix_pairs", "natural_close_value_pairs", "natural_rune_next_to_digits_pairs", "mbits_concurrent_neighbour_cases"},
+				Required:     []string{"mbits_cases", "mbits_unaligned_word_cases", "mbits_exact_end_cases", "mbits_cancelling_word_cases", "trunc_cases", "trunc_cuts_inside_rune", "natural_pairs", "natural_triples", "natural_numeric_pairs", "natural_prefix_pairs", "natural_close_value_pairs", "natural_rune_next_to_digits_pairs", "mbits_concurrent_neighbour_cases", "natural_huge_strings"},
 				Exhaustive:   true,
 				Assumptions:  []string{"an over-read that stays inside one allocation and does not change the result is invisible to this monitor", "digit runs are kept to <= 18 digits so that int does not overflow"},
 				CoverPkgs:    []string{"github.com/creachadair/mds/mbits", "github.com/creachadair/mds/mstr"},
@@ -902,6 +902,33 @@ func runC20(c *fw.Ctx) {
 			continue
 		}
 		c20numeric(c, c.Rng())
+	}
+	// huge strings with millions of alternating digit and text runs (16 MB; 4 MB
+	// in the 32-bit build), equal up to leading zeros or differing only at the
+	// very end: whatever CompareNatural does per run is multiplied by millions
+	if (c.Flavour == "plain" || c.Flavour == "386") && c.Block < 3 && c.Begin(idx+nn+50+c.Block) {
+		reps := 4 << 20
+		if strconv.IntSize == 32 {
+			reps = 1 << 20
+		}
+		unit := []string{"a1", "x07/", "9:"}[c.Block]
+		base := strings.Repeat(unit, reps)
+		zeroed := strings.Repeat(strings.Replace(unit, "1", "01", 1), reps)
+		c.Call("mstr.CompareNatural on strings of %d bytes made of %q repeated", len(base), unit)
+		ok, pv, stack := fw.Try(func() {
+			for _, pr := range [][2]string{{base, base}, {base + "5", base + "6"}, {base + "10", base + "9"}, {base, zeroed}, {base + "b", base + "a"}, {base, base[:len(base)-len(unit)]}} {
+				got, rev := mstr.CompareNatural(pr[0], pr[1]), mstr.CompareNatural(pr[1], pr[0])
+				want, kind := refNaturalK(pr[0], pr[1])
+				if got != -rev || got < -1 || got > 1 || (kind <= 1 && got != want) || ((got == 0) != (canonDigits(pr[0]) == canonDigits(pr[1]))) {
+					c.Fail(map[string]any{"a": fmt.Sprintf("%q x %d + %q", unit, reps, pr[0][min(len(pr[0]), len(base)):]), "b": fmt.Sprintf("%d bytes, tail %q", len(pr[1]), pr[1][max(0, len(pr[1])-6):])}, "CompareNatural(a,b)=%d, CompareNatural(b,a)=%d, the reference gives %d (kind %d)", got, rev, want, kind)
+					return
+				}
+			}
+		})
+		if !ok {
+			c.FailKind("panic", map[string]any{"bytes": len(base), "unit": unit}, "panic: %v\n%s", pv, stack)
+		}
+		c.Add("natural_huge_strings", 1)
 	}
 	// every rune of the Basic Multilingual Plane (and a stride beyond) next to
 	// digit runs: after a run, before a run, between two runs, and as the whole
